@@ -66,12 +66,12 @@ prop("C07",
      note="Proof covers the in-place interpreter; the other back ends are covered per mechanism and bounded. Not decided: placement of limit ops by build_threaded_code; 'effectively unlimited budget reports finished' for the compiled back ends (needs C01-C03 in full); irint Calc arm.")
 
 prop("C08",
-     units=[("verus", "u7_inplace", None), ("kani", "u2_tape", None), ("kani", "u5_bcint_ops", None), ("kani", "u6b_jit_shims", None), ("kani", "u8_irint", None)],
+     units=[("verus", "u7_inplace", None), ("kani", "u2_tape", None), ("kani", "u5_bcint_ops", None), ("kani", "u6b_jit_shims", None), ("kani", "u8_irint", None), ("kani", "u6_jit", None)],
      level="model_checking",
      technique="Verus proof of the in-place stop path (stopped configuration, no later event) + loop-free Kani contract harnesses for Context::input/output result mapping over all reader/writer outcomes",
      design_ref="DESIGN.md section 4-U7/U2, 5-C08",
      text="Context::input/output map every reader/writer outcome as specified (complete, loop-free); the in-place interpreter stops at the failing operation with the canonical prefix and returns Ok (unbounded proof); bytecode input/output ops return the null ip without a store; the IR interpreter propagates a failure out of nested blocks with no later event (concrete block shapes); the JIT's runtime shims report input and output failure to the generated code.",
-     note="NOT decided: the JIT's generated call sequences around Inp/Out (push/pop symmetry, the jump to the termination path) -- the call-making forms are outside unit u6; llvmjit (feature off).")
+     note="The JIT's generated call sequences around Inp/Out (argument set-up, push/pop symmetry, alignment, jump to the termination path iff the shim reports failure) are decided by unit u6 for enumerated cell offsets / live masks over all machine states. NOT decided: llvmjit (feature off); irint Calc arm.")
 
 prop("C02",
      units=[("kani", "u5_bcint_ops", None), ("kani", "u9_bc_passes", None)],
@@ -111,4 +111,4 @@ prop("C03",
      technique="per-instruction contract of the real JIT selector/encoder: the bytes the real emit_program produces for a concrete bytecode instruction are run under an x86-64 subset semantics by Kani over ALL machine states and compared with the bytecode step semantics; operands enumerated",
      design_ref="DESIGN.md section 4-U6, 5-C03",
      text="Selector/encoder layer: for every enumerated instruction instance (every arm of the selector's match x register class incl. stack temporaries x immediate class incl. 64-bit immediates x displacement class x live mask x width) the emitted machine code computes the bytecode step for all register/stack/tape/context contents, preserves live temporaries and touches no byte outside the destination; branches, the budget check and the unchecked move likewise.",
-     note="Trusted: the x86-64 subset semantics (decoder run natively, executor in Kani), the register map. Quick tier: the bytes come from a native run of the real emitter; thorough tier additionally proves in Kani that emit_program emits exactly them. NOT decided: the call-making forms (checked Mov probe, Inp, Out: push/pop symmetry, alignment, runtime shims incl. hpbf_context_input), prologue/epilogue, mmap/transmute, the shared front end (C01, bc.rs).")
+     note="Trusted: the x86-64 subset semantics (decoder run natively, executor in Kani), the register map. Quick tier: the bytes come from a native run of the real emitter; thorough tier additionally proves in Kani that emit_program emits exactly them. Inp/Out call sequences are decided under the SysV call contract (caller-saved registers havoc). The x86 specification is conformance-checked against the CPU on every run (each arithmetic instance executed as real machine code). NOT decided: the checked Mov probe/extend/re-base sequence, prologue/epilogue, mmap/transmute, the shared front end (C01, bc.rs).")
